@@ -263,7 +263,7 @@ func runC14(p *Prop, tier string, seed int, evPath string) int {
 		"samples": samplesOrPlaceholder(samples), "obligations": len(items), "discharged": checked - len(failures),
 		"queries": e.Solver.Queries, "solver_time_s": e.Solver.Time.Seconds(), "wrapper_methods": len(items),
 		"functions_encoded": []string{fmt.Sprintf("%d wrapper methods of package stdlib (receiver types _pkg_Iface)", checked)},
-		"binding_entries": bindEntries, "binding_entries_compared": bindCompared, "binding_mismatches": len(bindFails), "binding_notes": bindNotes,
+		"binding_entries":   bindEntries, "binding_entries_compared": bindCompared, "binding_mismatches": len(bindFails), "binding_notes": bindNotes,
 		"bounds": p.Bounds, "outside": p.Outside, "inconclusive": inconclusive, "source_hash": prog.SourceHash(),
 		"technique": "symbolic execution of each wrapper method from go/ssa with uninterpreted W-fields; argument/result identity asserted (z3)",
 	}
